@@ -125,4 +125,17 @@ structure MockCallDesc where
   reporter : Option String
 deriving DecidableEq, Repr, Inhabited
 
+/-- one top-level statement of `MockSupport::actualCall(const SimpleString&)` (MockSupport.cpp) -/
+inductive ACStep
+  | scopeName                  -- `const SimpleString scopeFunctionName = appendScopeToName(functionName);`
+  | finishLast                 -- `if (last) { last->checkExpectations(); delete last; last = NULLPTR; }`
+  | retIgnoredIfDisabled       -- `if (!enabled_) return MockIgnoredActualCall::instance();`
+  | retTraceIfTracing          -- `if (tracing_) return MockActualCallTrace::instance().withName(..);`
+  | retIgnoredIfCallIgnored    -- `if (callIsIgnored(..)) return MockIgnoredActualCall::instance();`
+  | createChecked              -- `MockCheckedActualCall* call = createActualCall();` (sets lastActualFunctionCall_)
+  | withName                   -- `call->withName(..);`
+  | retChecked                 -- `return *call;`
+  | other (text : String)
+deriving DecidableEq, Repr, Inhabited
+
 end MockC
